@@ -1250,3 +1250,52 @@ func (it *Interp) modelInputsRaw(eval func([]string) []*big.Int) []map[string]in
 	}
 	return out
 }
+
+// CBOR codec (github.com/fxamacker/cbor/v2) as a value store: Marshal returns an opaque 4-byte
+// handle bound to a copy of the Go value, Unmarshal of a handle yields that value back. The
+// codec itself (reflection) is not executed; it is trusted to round-trip.
+func init() {
+	marshal := func(it *Interp, v Value) Bytes {
+		c := it.ctx
+		o := it.newVecObj(4)
+		for i := range o.cells {
+			o.cells[i] = c.Var(fmt.Sprintf("cb%d", it.nInputs), 8)
+			it.nInputs++
+		}
+		o.tag = "cbor"
+		it.cborStore[o] = it.copyVal(v)
+		n := c.Int(4)
+		return Bytes{Obj: o, Off: c.Int(0), Len: n, Cap: n}
+	}
+	models["github.com/fxamacker/cbor/v2.Marshal"] = func(it *Interp, fr *frame, args []Value, fn *ssa.Function) Value {
+		return Tuple{marshal(it, args[0]), Iface{}}
+	}
+	models["github.com/fxamacker/cbor/v2.Unmarshal"] = func(it *Interp, fr *frame, args []Value, fn *ssa.Function) Value {
+		data := args[0].(Bytes)
+		target := args[1].(Iface)
+		if data.Obj != nil {
+			if sv, ok := it.cborStore[data.Obj]; ok && isZero(data.Off) {
+				stored := sv.(Iface)
+				pt, isPtr := target.T.(*types.Pointer)
+				if isPtr && types.Identical(pt.Elem(), stored.T) {
+					it.store(target.V, it.copyVal(stored.V))
+					return Iface{}
+				}
+				return it.newError("cbor: cannot unmarshal into this type (model)", nil)
+			}
+		}
+		return it.newError("cbor: malformed input (model: bytes that are not an encoder output)", nil)
+	}
+	intrinsics["verifCborBlob"] = func(it *Interp, fr *frame, args []Value, fn *ssa.Function) Value {
+		return marshal(it, args[0])
+	}
+	intrinsics["verifCborValue"] = func(it *Interp, fr *frame, args []Value, fn *ssa.Function) Value {
+		data := args[0].(Bytes)
+		if data.Obj != nil {
+			if sv, ok := it.cborStore[data.Obj]; ok {
+				return sv
+			}
+		}
+		return Iface{}
+	}
+}
